@@ -15,7 +15,7 @@ import numpy as np
 
 from .. import data as D
 from ..core import viol
-from ..sched import ControlledScheduler
+from ..sched import ControlledScheduler, ScheduleDivergence
 
 ID = "C12"
 LEVEL = "model_checking"
@@ -260,6 +260,8 @@ def configs(tier):
         return out
     for mname in MODELS_T:
         for layout in LAYOUTS:
+            if layout == "element" and mname not in ("EOF", "POP", "MCA", "ExtendedEOF", "EOFRotator"):
+                continue  # one task per element: 5-30 k tasks per compute for the larger models
             for compute, cn in ((False, False), (False, True), (True, True)):
                 bound = 0
                 if not compute and not cn and layout != "element":
@@ -342,7 +344,15 @@ def run_case(case, seed):
             if _layout_refusal(e):
                 return dict(outcome="refused:ValueError", nontrivial=False, info=dict(msg=str(e)[:80]))
             raise
-        s.check_prescription_consumed()
+        except ScheduleDivergence as e:
+            # the graph of this workload is not identical from run to run (unseeded sketches inside deferred rotations
+            # get fresh random key names, which decide ties between structurally equal tasks): the prescribed deviation
+            # does not exist in this run. Reported, never judged.
+            return dict(outcome="skipped:schedule_not_reproducible", nontrivial=False, info=dict(msg=str(e)[:80]))
+        try:
+            s.check_prescription_consumed()
+        except ScheduleDivergence as e:
+            return dict(outcome="skipped:schedule_not_reproducible", nontrivial=False, info=dict(msg=str(e)[:80]))
         deferred = not case["compute"]
         if not case["deviations"]:
             # (a) laziness: no scheduler call during fit / rotator fit, results still dask-backed
@@ -360,6 +370,10 @@ def run_case(case, seed):
                         bad("fit_leaves_eager_results", "not dask-backed after deferred rotator fit: %s" % nl, stage="rot.fit")
             # (e) the input data stays dask-backed inside the model
             for when in ("input_dask_before", "input_dask_after", "input_dask_after_second_compute"):
+                if model == "OPA" and case["compute"]:
+                    # OPA files the scores of its PCA pre-step under 'input_data' (not the user's data); with compute=True
+                    # those derived scores are computed like every other result
+                    continue
                 nl = sorted(k for k, v in obs[when].items() if not v)
                 if nl:
                     bad("input_data_materialised", "%s: %s replaced by an in-memory copy" % (when, nl), when=when.replace("input_dask_", ""))
